@@ -32,6 +32,22 @@ def specs(ck, n, prop, configs):
                "    return str(n)\n\n\ndef workload():\n    return [total([1, 2], 1), total([3]), label(2), label()]\n")
     pins.append({"name": f"vfsrc_{prop.lower()}_pin_verbose_{ck.seed}", "seed": f"{prop}:pin:5", "style": "plain-import", "configs": configs[:2], "cli": True,
                  "cli_ignore": True, "literal_source": verbose})
+    pins.append({"name": f"vfsrc_{prop.lower()}_pin_compound_{ck.seed}", "seed": f"{prop}:pin:6", "style": "plain-import", "configs": configs, "cli": True,
+                 "cli_confine": prop == "C16", "force": ["optional-union", "class-in-compound-statement"]})
+    # a module whose traced types are builtins and itself only: the stub imports typing names alone; annotations refer to the class being defined
+    selfref = ("class Node:\n    def __init__(self, value, parent=None):\n        self.value = value\n        self.parent = parent\n\n"
+               "    def chain(self, nodes):\n        return [n.value for n in nodes]\n\n    def root(self):\n        return self.parent.root() if self.parent else self\n\n"
+               "    def pick(self, other=None, label=None):\n        return other or self\n\n\n"
+               "def workload():\n    a = Node(1)\n    b = Node('s', a)\n    return [b.chain([a, b]), b.root().value, a.pick().value, a.pick(b, 'x').value, a.pick(None, 3).value]\n")
+    # the only union of the module sits inside an Optional
+    optunion = ("def coerce(v, fallback=None):\n    return fallback if v is None else v\n\n\n"
+                "def workload():\n    return len([coerce(1), coerce('s'), coerce(None), coerce(None, 2.5)])\n")
+    pins.append({"name": f"vfsrc_{prop.lower()}_pin_optunion_{ck.seed}", "seed": f"{prop}:pin:8", "style": "plain-import", "configs": configs, "cli": True,
+                 "cli_confine": prop == "C16", "literal_source": optunion})
+    if prop == "C16":
+        # (without confinement the applied module cannot be imported - `nodes: List[Node]` inside `class Node` - which no property demands)
+        pins.append({"name": f"vfsrc_{prop.lower()}_pin_selfref_{ck.seed}", "seed": f"{prop}:pin:7", "style": "plain-import", "configs": configs, "cli": True,
+                     "cli_confine": True, "literal_source": selfref})
     return pins + out
 
 
